@@ -11,27 +11,31 @@ real-code relations checked by the harness (S-CLI).
 namespace Sql.C19
 
 /-- bytes with the matching `encoding` argument are the same input as the decoded str -/
-theorem bytes_with_encoding (decode : Decoder) (fb : String) (b : List Nat) (enc : String) (s : Text)
+theorem bytes_with_encoding (decode : Decoder) (pr fb : String) (b : List Nat) (enc : String) (s : Text)
     (hne : enc.isEmpty = false) (h : decode enc b = .ok s) :
-    normaliseInput decode fb (.bytes b) (some enc) = normaliseInput decode fb (.str s) none := by
+    normaliseInput decode pr fb (.bytes b) (some enc) = normaliseInput decode pr fb (.str s) none := by
   simp [normaliseInput, Option.filter, hne, h]
+
+/-- table obligation: bytes without an encoding are first read as plain UTF-8 (not a variant that drops a signature or tolerates errors) -/
+theorem primary_is_utf8 : Gen.primaryCodec = "utf-8" := by decide
 
 /-- UTF-8 bytes without an encoding argument are the same input as the decoded str -/
 theorem utf8_bytes (decode : Decoder) (fb : String) (b : List Nat) (s : Text) (h : decode "utf-8" b = .ok s) :
-    normaliseInput decode fb (.bytes b) none = normaliseInput decode fb (.str s) none := by
+    normaliseInput decode Gen.primaryCodec fb (.bytes b) none = normaliseInput decode Gen.primaryCodec fb (.str s) none := by
+  rw [primary_is_utf8]
   simp [normaliseInput, Option.filter, h]
 
 /-- a text stream is the same input as its contents -/
-theorem stream_is_its_text (decode : Decoder) (fb : String) (s : Text) (enc : Option String) :
-    normaliseInput decode fb (.stream s) enc = normaliseInput decode fb (.str s) none := rfl
+theorem stream_is_its_text (decode : Decoder) (pr fb : String) (s : Text) (enc : Option String) :
+    normaliseInput decode pr fb (.stream s) enc = normaliseInput decode pr fb (.str s) none := rfl
 
 /-- table obligation: the codec applied to bytes that are not valid UTF-8 is Latin-1, as documented -/
 theorem fallback_is_latin1 : Gen.fallbackCodec = "latin-1" := by decide
 
 /-- **non-UTF-8 bytes without an encoding are read as Latin-1** -/
 theorem latin1_fallback (decode : Decoder) (b : List Nat) (h : decode "utf-8" b = .error .unicodeDecodeError) :
-    normaliseInput decode Gen.fallbackCodec (.bytes b) none = decode "latin-1" b := by
-  rw [fallback_is_latin1]
+    normaliseInput decode Gen.primaryCodec Gen.fallbackCodec (.bytes b) none = decode "latin-1" b := by
+  rw [fallback_is_latin1, primary_is_utf8]
   simp [normaliseInput, Option.filter, h]
 
 /-- the hypothesis is not decorative (defect repaired by a `fix:` commit, KF-C19-F1): with `unicode-escape` as fallback the text depends on
@@ -41,7 +45,7 @@ theorem unicode_escape_counterexample :
       if name == "utf-8" then .error .unicodeDecodeError
       else if name == "unicode-escape" then .ok (if b == [233, 92, 110] then [233, 10] else b)
       else .ok b
-    (normaliseInput decode "unicode-escape" (.bytes [233, 92, 110]) none).toOption ≠
-      (normaliseInput decode "latin-1" (.bytes [233, 92, 110]) none).toOption := by decide
+    (normaliseInput decode "utf-8" "unicode-escape" (.bytes [233, 92, 110]) none).toOption ≠
+      (normaliseInput decode "utf-8" "latin-1" (.bytes [233, 92, 110]) none).toOption := by decide
 
 end Sql.C19
